@@ -23,9 +23,6 @@ type tunnelScript struct {
 	WantC2B       int      // bytes the backend expects from the client
 	BackendCloses bool
 	Graceful      bool
-	// "client leaves" scenario: the backend keeps sending while it reads nothing for ReadDelay
-	Flood     bool
-	ReadDelay time.Duration
 	// results
 	done      chan struct{}
 	Recv      []byte
@@ -96,34 +93,6 @@ func tunnelBackend(bc *sys.BackendConn) {
 			}
 		}
 	}
-	if s.Flood {
-		if s.Mode != "stream" {
-			c.Write([]byte("HTTP/1.1 101 Switching Protocols\r\nUpgrade: websocket\r\nConnection: Upgrade\r\n\r\n"))
-		}
-		stop := make(chan struct{})
-		fdone := make(chan struct{})
-		go func() {
-			defer close(fdone)
-			blk := payload(32*1024, 7)
-			for {
-				select {
-				case <-stop:
-					return
-				default:
-				}
-				c.SetWriteDeadline(time.Now().Add(200 * time.Millisecond))
-				if _, err := c.Write(blk); err != nil {
-					return
-				}
-				time.Sleep(3 * time.Millisecond)
-			}
-		}()
-		time.Sleep(s.ReadDelay)
-		s.Recv, s.SawEOF = readUntil(c, -1, early, 15*time.Second)
-		close(stop)
-		<-fdone
-		return
-	}
 	var wg sync.WaitGroup
 	wg.Add(1)
 	go func() {
@@ -165,7 +134,11 @@ func TestC47(t *testing.T) {
 	if err != nil {
 		t.Fatal(err)
 	}
-	d := sys.SimpleConf("v0", []sys.Cluster{sys.OneBackendCluster("c", tb.Port)}, nil)
+	// the cluster also has a refused member: about half of the tunnels reach the backend on the
+	// second attempt of the connect loops in bfe_websocket / bfe_stream
+	cl := sys.Cluster{Name: "c", RetryMax: 2, TimeoutConnSrvMs: 1000, Sub: []sys.SubCluster{{Name: "c.sub", Weight: 100, Backends: []sys.BackendSpec{
+		{Name: "tun", Addr: "127.0.0.1", Port: tb.Port, Weight: 10}, {Name: "dead", Addr: "127.0.0.1", Port: 1, Weight: 10}}}}}
+	d := sys.SimpleConf("v0", []sys.Cluster{cl}, nil)
 	d.DefaultProduct = "p"
 	rig, err := sys.Start(sys.Options{Data: d, NextProtos: []string{"stream", "http/1.1"}, SessionTickets: true, ClientReadTimeout: 2})
 	sessCache := map[string]tls.ClientSessionCache{"wss": tls.NewLRUClientSessionCache(4), "stream": tls.NewLRUClientSessionCache(4)}
@@ -188,10 +161,6 @@ func TestC47(t *testing.T) {
 	rapid.Check(t, func(rt *rapid.T) {
 		n++
 		mode := rapid.SampledFrom([]string{"ws", "wss", "stream"}).Draw(rt, "mode")
-		if rapid.IntRange(0, 9).Draw(rt, "client-leaves-scenario") == 0 {
-			c47ClientLeaves(rt, rec, rig, tb, mode, n)
-			return
-		}
 		sizes := []int{1, 2, 100, 1000, 4096, 16384, 65536, 131072}
 		plan := func(label string) [][]byte {
 			k := rapid.IntRange(0, 4).Draw(rt, label+"-n")
@@ -495,70 +464,4 @@ func (c *coalesceConn) release() int {
 	c.hold = false
 	c.mu.Unlock()
 	return c.flush()
-}
-
-// c47ClientLeaves: the client sends everything, half-closes, listens briefly and goes away
-// while the backend is still sending and has not read anything yet. The teardown that
-// follows in BFE must not cost the backend any of the bytes the client had sent: they were
-// all handed to BFE before the client left.
-func c47ClientLeaves(rt *rapid.T, rec *ev.Rec, rig *sys.Rig, tb *sys.Backend, mode string, n int) {
-	size := rapid.SampledFrom([]int{1000, 20000, 60000, 100000}).Draw(rt, "leave-c2b-size")
-	delay := rapid.SampledFrom([]int{400, 700}).Draw(rt, "backend-read-delay-ms")
-	data := payload(size, rapid.IntRange(0, 1000).Draw(rt, "leave-seed"))
-	s := &tunnelScript{Mode: mode, WantC2B: size, Flood: true, ReadDelay: time.Duration(delay) * time.Millisecond, done: make(chan struct{})}
-	tunMu.Lock()
-	tunCur = s
-	tunMu.Unlock()
-	defer func() {
-		tunMu.Lock()
-		tunCur = nil
-		tunMu.Unlock()
-		tb.Reset()
-	}()
-	shape := fmt.Sprintf("%s client-leaves c2b=%d backend-reads-after=%dms", mode, size, delay)
-	rec.Case(shape, true, "mode:"+mode, "scenario:client-leaves-while-backend-floods")
-	rec.Sample(map[string]any{"shape": shape})
-	wit := map[string]any{"shape": shape}
-	var c net.Conn
-	var err error
-	switch mode {
-	case "ws":
-		c, err = rig.Dial()
-	case "wss":
-		c, err = sys.DialTLS(rig.HTTPSAddr, []string{"http/1.1"}, tls.VersionTLS12, tls.VersionTLS12)
-	default:
-		c, err = sys.DialTLS(rig.HTTPSAddr, []string{"stream"}, tls.VersionTLS12, tls.VersionTLS12)
-	}
-	if err != nil {
-		rt.Fatalf("rig: dial %s: %v", mode, err)
-	}
-	if mode != "stream" {
-		fmt.Fprintf(c, "GET /c47/%d HTTP/1.1\r\nHost: example.org\r\nUpgrade: websocket\r\nConnection: Upgrade\r\nSec-WebSocket-Key: dGhlIHNhbXBsZSBub25jZQ==\r\nSec-WebSocket-Version: 13\r\n\r\n", n)
-		hb, _ := readUntilHeader(c, 10*time.Second)
-		if !bytes.HasPrefix(hb, []byte("HTTP/1.1 101")) {
-			c.Close()
-			<-waitDone(s.done, 20*time.Second)
-			rec.Class("client-leaves-inconclusive")
-			return
-		}
-	}
-	c.SetWriteDeadline(time.Now().Add(10 * time.Second))
-	_, werr := c.Write(data)
-	closeWrite(c)
-	readUntil(c, -1, nil, 30*time.Millisecond)
-	c.Close()
-	if werr != nil {
-		<-waitDone(s.done, 20*time.Second)
-		rec.Class("client-leaves-inconclusive")
-		return
-	}
-	select {
-	case <-s.done:
-	case <-time.After(25 * time.Second):
-		rec.Class("backend-side-timeout")
-		return
-	}
-	if !bytes.Equal(s.Recv, data) {
-		rec.Fail(rt, "c2b-lost-after-client-left:"+mode, wit, "the client sent %d bytes, half-closed and left; the backend (reading %d ms later) received %d bytes, eof=%v (first difference at %d)", len(data), delay, len(s.Recv), s.SawEOF, firstDiff(s.Recv, data))
-	}
 }
